@@ -112,6 +112,64 @@ func (e *Engine) verifyFunc(fn *ssa.Function, fs *FuncSpec) (c *vctx) {
 	return c
 }
 
+// verifyLemma: a lemma is a quantifier-free obligation over fresh parameters: requires ==> ensures, where calls
+// to pure functions under contract are instantiated with their contracts.
+func (e *Engine) verifyLemma(lem *LemmaSpec) (c *vctx) {
+	c = newVctx("lemma." + lem.Name)
+	e.cur = c
+	defer func() {
+		if r := recover(); r != nil {
+			c.anchorErrs = append(c.anchorErrs, fmt.Sprintf("%s: generator panic: %v", c.fn, r))
+			if debugPanic {
+				panic(r)
+			}
+		}
+	}()
+	a := &act{e: e, vals: map[ssa.Value]Val{}, outs: map[*ssa.BasicBlock]*blockOut{}, top: true, name: c.fn}
+	c.topAct = a
+	st := &State{locals: map[any]Val{}, heap: map[string]Term{}, epoch: "0"}
+	st.alloc = c.log.declConst("alloc@0", SInt)
+	c.log.assert(app(SBool, ">=", st.alloc, intLit(1)))
+	a.entry = st.clone()
+	env := e.newEnv(a, st)
+	env.pkg = e.spkg[lem.Pkg]
+	env.vars = map[string]Val{}
+	for _, p := range lem.Params {
+		t, err := env.parseType(p.Type)
+		if err != nil {
+			c.anchorErrs = append(c.anchorErrs, fmt.Sprintf("lemma %s: %v", lem.Name, err))
+			return c
+		}
+		v := e.freshVal("in."+p.Name, t, st)
+		env.vars[p.Name] = v
+		for _, tm := range v.T {
+			if tm.Sort == SInt || tm.Sort == SReal || tm.Sort == SBool {
+				c.inputs = append(c.inputs, tm.S)
+			}
+		}
+	}
+	for _, cl := range lem.Requires {
+		t, err := env.evalBool(cl.E)
+		if err != nil {
+			a.specError(cl, err)
+			continue
+		}
+		c.log.assert(t)
+	}
+	sm := &Obligation{Name: c.fn + "/smoke:hypotheses-satisfiable", Kind: "smoke", Formula: tTrue, Fn: c.fn, Smoke: true}
+	c.log.addOblig(sm)
+	c.obligations = append(c.obligations, sm)
+	for _, cl := range lem.Ensures {
+		t, err := env.evalBool(cl.E)
+		if err != nil {
+			a.specError(cl, err)
+			continue
+		}
+		a.obligation("lemma", cl.Label, 0, tTrue, t)
+	}
+	return c
+}
+
 var debugPanic = false
 
 // frameObligations: every heap family changed by the function is unchanged outside the modifies targets for all
